@@ -588,10 +588,80 @@ func (p *c10) multiRoundTrip(x *res, items []val.Item, ctx *runner.Ctx) {
 	}
 }
 
+// invalidNumerals: the converse of "numbers in any valid notation". A value of type N (top level, inside a list or
+// a map, a member of a number set, an expression attribute value) whose text is no number is either refused by the
+// write - what DynamoDB does - or, if the library stores it, comes back as it was written and breaks nothing: every
+// read of the table, with or without a filter, still works.
+func (p *c10) invalidNumerals(x *res, adapter string) {
+	spec := mon.SpecHashRange("tbl10n")
+	bad := []string{"abc", "NaN", "Infinity", "-Infinity", "1e999", " 1", "--1", "1,5", "0x10", "", "1e", "١٢٣", "1234567890123456789012345678901234567890"}
+	for bi, text := range bad {
+		n := val.V{K: val.KN, Str: text}
+		forms := []val.Item{
+			{"n": n},
+			{"l": val.List(val.Str("x"), n)},
+			{"m": val.Map(map[string]val.V{"deep": val.List(val.Map(map[string]val.V{"n": n}))})},
+			{"ns": val.V{K: val.KNS, Set: []string{"1", text}}},
+		}
+		for fi, form := range forms {
+			cl, _, ds := freshClient(adapter, spec)
+			if ds != nil {
+				return
+			}
+			good := val.Item{"h": val.Str("k"), "r": val.Str("good"), "v": val.Num("5")}
+			cl.Do(adapt.Op{Kind: adapt.OpPut, Table: spec.Name, Item: good})
+			it := val.Item{"h": val.Str("k"), "r": val.Str("s")}
+			for k, v := range form {
+				it[k] = v
+			}
+			put := cl.Do(adapt.Op{Kind: adapt.OpPut, Table: spec.Name, Item: it})
+			x.r.Evals++
+			x.fp(true, "%s|invalid-numeral|%d|%d", adapter, bi, fi)
+			wit := map[string]interface{}{"adapter": adapter, "item": it, "put": put}
+			switch {
+			case put.Class == adapt.ClsRuntime:
+				x.viol("runtime-panic", put.Site, fmt.Sprintf("[%s] PutItem with the number %q (form %d): runtime panic at %s: %s", adapter, text, fi, put.Site, put.Msg), wit)
+				continue
+			case put.Class != adapt.ClsOK:
+				x.r.Counters["invalid_numerals_refused"]++
+			default:
+				x.r.Counters["invalid_numerals_stored"]++
+			}
+			// whatever the write did, the table still reads
+			reads := []adapt.Op{
+				{Kind: adapt.OpScan, Table: spec.Name, Filter: "v > :z", Values: val.Item{":z": val.Num("0")}},
+				{Kind: adapt.OpScan, Table: spec.Name, Filter: "attribute_exists(n) OR size(r) > :z", Values: val.Item{":z": val.Num("0")}},
+				{Kind: adapt.OpQuery, Table: spec.Name, KeyCnd: "h = :h", Values: val.Item{":h": val.Str("k")}},
+				{Kind: adapt.OpGet, Table: spec.Name, Key: val.Item{"h": val.Str("k"), "r": val.Str("good")}},
+				{Kind: adapt.OpUpdate, Table: spec.Name, Key: val.Item{"h": val.Str("k"), "r": val.Str("good")}, Update: "SET w = :z", Values: val.Item{":z": val.Num("1")}},
+			}
+			for _, rd := range reads {
+				o := cl.Do(rd)
+				x.r.Evals++
+				if o.Class != adapt.ClsOK {
+					x.viol("invalid-number-breaks-the-table", fmt.Sprintf("%s/form%d/%s", adapter, fi, rd.Kind), fmt.Sprintf("[%s] after PutItem with the number %q (form %d, answered %s), %s on the table fails: %s %s", adapter, text, fi, put.Class, rd.String(), o.Class, o.Msg), wit)
+					break
+				}
+			}
+		}
+		// ... and as an expression attribute value of a read
+		cl, _, _ := freshClient(adapter, spec)
+		cl.Do(adapt.Op{Kind: adapt.OpPut, Table: spec.Name, Item: val.Item{"h": val.Str("k"), "r": val.Str("good"), "v": val.Num("5")}})
+		o := cl.Do(adapt.Op{Kind: adapt.OpScan, Table: spec.Name, Filter: "v > :z", Values: val.Item{":z": val.V{K: val.KN, Str: text}}})
+		x.r.Evals++
+		if o.Class == adapt.ClsRuntime || o.Class == adapt.ClsOK {
+			x.viol("invalid-number-as-expression-value", adapter+"/"+o.Class, fmt.Sprintf("[%s] Scan with the filter v > :z and :z = N %q: %s %s (want the request refused)", adapter, text, o.Class, o.Msg), nil)
+		}
+	}
+}
+
 func (p *c10) RunCase(ctx *runner.Ctx) runner.CaseResult {
 	x := newRes()
 	if c10Cache == nil {
 		c10Cache = c10Exhaustive()
+	}
+	if ctx.Case < 2 {
+		p.invalidNumerals(x, adapt.Adapters[ctx.Case])
 	}
 	blocks := (len(c10Cache) + c10Block - 1) / c10Block
 	if ctx.Case < blocks {
